@@ -83,6 +83,7 @@ func (fr *Frame) callFn(st *State, site ssa.Instruction, fn *ssa.Function, args 
 			st.srcVar[fmt.Sprintf("callarg%d", i)] = a
 			st.srcAdr[fmt.Sprintf("callarg%d", i)] = false
 		}
+		fr.anchor(st, "beforecall", fn.Name(), -1)
 	}
 	var res Value
 	// methods of abstract (ring-element) types are interpreted by their ring meaning
@@ -689,6 +690,12 @@ func (v *Verifier) freshLike(name string, cur Value) Value {
 			F.VarHi[arr] = ii.hi()
 		}
 		return &ArrV{Arr: arr, Elem: c.Elem}
+	case *SoAV:
+		es := make([]Value, len(c.Elems))
+		for i := range es {
+			es[i] = v.freshLike(fmt.Sprintf("%s.%d", name, i), c.Elems[i])
+		}
+		return &SoAV{Elems: es, Elem: c.Elem}
 	case *PtrV, *SliceV, *IfaceV, *FuncV:
 		return cur // pointers are not havoced (shape-preserving)
 	case *IteV:
@@ -703,7 +710,12 @@ func (v *Verifier) freshLike(name string, cur Value) Value {
 // opaqueOK: with "option opaque-calls" every callee without a contract at the current layer is an opaque
 // call: its results are arbitrary values of the result types. The callee is ASSUMED not to write through its
 // arguments (recorded); functions whose writes matter need a contract with a modifies clause.
-func (v *Verifier) opaqueOK(fn *ssa.Function) bool { return v.opaqueCalls || v.opaqueNames[fn.Name()] }
+func (v *Verifier) opaqueOK(fn *ssa.Function) bool {
+	if v.inlineNames[fn.Name()] && len(fn.Blocks) > 0 {
+		return false // "option inline-callees": the body is executed
+	}
+	return v.opaqueCalls || v.opaqueNames[fn.Name()]
+}
 
 func (fr *Frame) opaqueCall(st *State, site ssa.Instruction, fn *ssa.Function, args []Value) Value {
 	v := fr.v
@@ -722,6 +734,10 @@ func (fr *Frame) opaqueCall(st *State, site ssa.Instruction, fn *ssa.Function, a
 					setter = true
 				}
 			}
+			if v.opaqueWrites[fn.Name()] != nil {
+				// "option opaque-writes F:k" lists everything this callee writes: the receiver only if it is listed (k = 0)
+				setter = false
+			}
 			if pv, ok := args[0].(*PtrV); ok && pv.Obj != nil && setter {
 				if !v.pureCalls[fn.Name()] {
 					if cur := v.content0(st, pv.Obj); cur != nil {
@@ -729,6 +745,29 @@ func (fr *Frame) opaqueCall(st *State, site ssa.Instruction, fn *ssa.Function, a
 					}
 				}
 			}
+		}
+	}
+	for _, k := range v.opaqueWrites[fn.Name()] {
+		// declared in the contract: this opaque callee overwrites what its k-th argument points to (the whole
+		// backing object of a slice argument receives arbitrary content)
+		if k >= len(args) {
+			unsup("option opaque-writes %s:%d: no such argument", fn.Name(), k)
+		}
+		switch a := args[k].(type) {
+		case *SliceV:
+			if a.Obj != nil {
+				v.noteWrite(fr, st, a.Obj, a.Path)
+				cur := v.content(st, a.Obj)
+				st.mem[a.Obj] = v.setPath(cur, a.Path, v.freshLike(fmt.Sprintf("opq!%s!%d_w%d", fn.Name(), v.fresh, k), v.getPath(cur, a.Path)))
+			}
+		case *PtrV:
+			if a.Obj != nil {
+				v.noteWrite(fr, st, a.Obj, a.Path)
+				cur := v.content(st, a.Obj)
+				st.mem[a.Obj] = v.setPath(cur, a.Path, v.freshLike(fmt.Sprintf("opq!%s!%d_w%d", fn.Name(), v.fresh, k), v.getPath(cur, a.Path)))
+			}
+		default:
+			unsup("option opaque-writes %s:%d: argument is %T", fn.Name(), k, args[k])
 		}
 	}
 	if v.pureCalls[fn.Name()] && rs.Len() == 1 {
